@@ -421,6 +421,12 @@ func scriptedHandler(name string, reg *Registry, closeOf func(w http.ResponseWri
 			case <-req.Context().Done():
 			}
 			panic(http.ErrAbortHandler)
+		case b == "gs503": // wait for the driver, then answer 503
+			select {
+			case <-rel:
+				reply(503, a.Token)
+			case <-req.Context().Done():
+			}
 		case b == "gateclose": // wait for the driver, then close the connection
 			select {
 			case <-rel:
@@ -447,7 +453,7 @@ func scriptedHandler(name string, reg *Registry, closeOf func(w http.ResponseWri
 }
 
 // HTTPUpstream is a scripted HTTP/1.1 server. The request header X-Script holds comma separated behaviours, one
-// per attempt (the last one repeats): ok | sNNN | close | hang | slowN | gate | gateclose | gatereset | big<N>
+// per attempt (the last one repeats): ok | sNNN | close | hang | slowN | gate | gs503 | gateclose | gatereset | big<N>
 type HTTPUpstream struct {
 	Name  string
 	Addr  string
